@@ -73,11 +73,14 @@ def native_runs(prop, tier):
         runs = [("native release, runtime backend forced per call", "rel", "quick", NCPU)]
         if prop in ("C01", "C09", "C03", "C05"):
             runs.append(("native debug-assertions + overflow checks", "rel-dbg", "small" if prop != "C09" else "quick", NCPU))
+        if prop == "C01":
+            runs.append(("native release code generation with -Coverflow-checks=on", "ovf", "small", NCPU))
     else:
         runs = [("native release, runtime backend forced per call", "rel", "thorough", NCPU)]
         if prop in ("C01", "C09", "C03", "C04", "C05", "C17", "C02"):
             runs.append(("native debug-assertions + overflow checks", "rel-dbg", "quick" if prop != "C09" else "thorough", NCPU))
         if prop in ("C01",):
+            runs.append(("native release code generation with -Coverflow-checks=on", "ovf", "quick", NCPU))
             for v in ("sse42ct", "avx2ct", "nosimd", "nostd"):
                 runs.append(("native release, build variant " + v, v, "quick", NCPU))
     return runs
